@@ -333,3 +333,108 @@ Theorem C08_stake_account_wide_amount_refuted :
    snd (lk_clawback (lx_s (fst r)) [(5000, 500); (19990, 250)] 25995) = LK_INSUFFICIENT).
 Proof. exact lkx_stake_account_wide_refuted. Qed.
 Print Assumptions C08_stake_account_wide_amount_refuted.
+
+(** ---- validator creation: the self-bond of MsgCreateValidator is a delegation ----
+    [LyCreateValidator r x] = MsgCreateValidator{DelegatorAddress = the account, Value = x} over route [r]:
+    [LkRouteMsg] the message in a Cosmos transaction (message router), [LkRouteAuthz] the message inside authz
+    MsgExec (a generic grant on its type URL; the same router), [LkRoutePrecompile] the staking precompile's
+    createValidator in an Ethereum transaction signed by the account (precompiles/staking/tx.go builds its own message
+    server).  [lky_step] = the code: Haqq's wrapper x/staking/keeper.msgServer.CreateValidator on every route
+    (validateDelegationAmountNotUnvested, then the SDK's CreateValidator = DelegateCoins + TrackDelegation);
+    [lky_step_g srv] = the same with the message server chosen per route by [srv] ([LkCvSdk] = the Cosmos SDK's own
+    server, which knows nothing of clawback vesting), kept for the refutation.  [lky_op] = every operation of
+    [lkx_op] and validator creation; [lky_run] folds [lky_step] over a history.
+
+    On every route the code's validator creation IS the ordinary guarded delegation of the self-bond. *)
+Theorem C08_validator_creation_is_guarded_delegation :
+  forall s r x, lky_step s (LyCreateValidator r x) = lkx_step s (LxBase (LkDelegate x) 0%N).
+Proof. exact lky_create_validator_is_delegate. Qed.
+Print Assumptions C08_validator_creation_is_guarded_delegation.
+
+(** a successful validator creation by a vesting account, on every route: the self-bond is positive and covered by
+    balance - unvested; it leaves the balance, is bonded and tracked (DelegatedFree); the unvested amount, the
+    account kind and the funder are unchanged *)
+Theorem C08_validator_creation_within_vested :
+  forall s r x s', lx_vesting s = true -> lky_step s (LyCreateValidator r x) = (s', LK_OK) ->
+    0 < x <= lk_bal (lx_s s) - lk_unvested (lk_a (lx_s s)) (lk_now (lx_s s)) /\
+    lk_bal (lx_s s') = lk_bal (lx_s s) - x /\ lk_deleg (lx_s s') = lk_deleg (lx_s s) + x /\
+    lk_df (lk_a (lx_s s')) = lk_df (lk_a (lx_s s)) + x /\ lk_dv (lk_a (lx_s s')) = lk_dv (lk_a (lx_s s)) /\
+    lk_unvested (lk_a (lx_s s')) (lk_now (lx_s s')) = lk_unvested (lk_a (lx_s s)) (lk_now (lx_s s)) /\
+    lx_vesting s' = true /\ lx_funder s' = lx_funder s.
+Proof. exact lky_create_validator_ok. Qed.
+Print Assumptions C08_validator_creation_within_vested.
+
+(** a self-bond above balance - unvested is refused on every route, and a refusal changes nothing *)
+Theorem C08_validator_creation_refused_above_vested :
+  forall s r x, lx_vesting s = true ->
+    lk_bal (lx_s s) - lk_unvested (lk_a (lx_s s)) (lk_now (lx_s s)) < x ->
+    snd (lky_step s (LyCreateValidator r x)) <> LK_OK.
+Proof. exact lky_create_validator_refused_above_vested. Qed.
+Print Assumptions C08_validator_creation_refused_above_vested.
+
+Theorem C08_failed_validator_creation_no_effect :
+  forall s r x s' e, lky_step s (LyCreateValidator r x) = (s', e) -> e <> LK_OK -> s' = s.
+Proof. exact lky_create_validator_fail. Qed.
+Print Assumptions C08_failed_validator_creation_no_effect.
+
+(** validator creation preserves "no unvested coin is delegated" on every route, in every state ... *)
+Theorem C08_validator_creation_preserves_unvested_not_delegated :
+  forall s r x, lkx_wfs s -> lkx_safe s ->
+    lkx_safe (fst (lky_step s (LyCreateValidator r x))) /\ lkx_wfs (fst (lky_step s (LyCreateValidator r x))).
+Proof. exact lky_create_validator_safe. Qed.
+Print Assumptions C08_validator_creation_preserves_unvested_not_delegated.
+
+(** ... and "balance >= locked" *)
+Theorem C08_validator_creation_preserves_balance_ge_locked :
+  forall s r x, lkx_wfs s -> lkx_inv s -> lkx_inv (fst (lky_step s (LyCreateValidator r x))).
+Proof. exact lky_create_validator_inv. Qed.
+Print Assumptions C08_validator_creation_preserves_balance_ge_locked.
+
+(** all histories mixing validator creation over the three routes with every other operation (spends, delegations,
+    undelegation, payout, slash, time, clawback, merges, conversions, stake messages, funder updates) *)
+Theorem C08_unvested_not_delegated_all_histories_with_validator_creation :
+  forall ops s, lkx_wfs s -> lkx_safe s -> lkx_safe (lky_run ops s) /\ lkx_wfs (lky_run ops s).
+Proof. exact lky_run_safe_wfs. Qed.
+Print Assumptions C08_unvested_not_delegated_all_histories_with_validator_creation.
+
+(** "balance >= locked": the K11 exclusion (no grant merged after a slash) unchanged; a validator creation counts as
+    the delegation it is ([lky_lower]) *)
+Theorem C08_balance_ge_locked_all_histories_with_validator_creation_partial :
+  forall ops s, lkx_wfs s -> lkx_inv s -> lkx_tracked s ->
+    lkx_no_grant_after_slash false (map lky_lower ops) = true ->
+    lkx_inv (lky_run ops s) /\ lkx_wfs (lky_run ops s).
+Proof. exact lky_run_inv_wfs_partial. Qed.
+Print Assumptions C08_balance_ge_locked_all_histories_with_validator_creation_partial.
+
+(** Refutation of the other message server.  1000 coins, 250 vested, everything locked up, block time 2000: the
+    account may delegate 250.  The code refuses a self-bond of 251 on each route and of 1000 through the precompile,
+    and accepts 250.  With the Cosmos SDK's message server behind the staking precompile ([lk_cv_precompile_sdk]) the
+    account's own Ethereum transaction bonds the whole grant: balance 0 < unvested 750 — unvested coins are
+    delegated, "balance >= locked" is lost and the funder's clawback fails; the other two routes still refuse. *)
+Theorem C08_validator_creation_sdk_server_refuted :
+  lkx_wfs lky_ex_start /\ lkx_inv lky_ex_start /\ lkx_safe lky_ex_start /\ lkx_tracked lky_ex_start /\
+  lk_unvested (lk_a (lx_s lky_ex_start)) 2000 = 750 /\
+  lky_results lk_cv_code [LyCreateValidator LkRouteMsg 251; LyCreateValidator LkRouteAuthz 251; LyCreateValidator LkRoutePrecompile 251;
+                          LyCreateValidator LkRoutePrecompile 1000; LyCreateValidator LkRoutePrecompile 250] lky_ex_start
+    = [LK_UNVESTED; LK_UNVESTED; LK_UNVESTED; LK_UNVESTED; LK_OK] /\
+  (let r := lky_step_g lk_cv_precompile_sdk lky_ex_start (LyCreateValidator LkRoutePrecompile 1000) in
+   snd r = LK_OK /\ lk_bal (lx_s (fst r)) = 0 /\ lk_deleg (lx_s (fst r)) = 1000 /\ lk_df (lk_a (lx_s (fst r))) = 1000 /\
+   lk_unvested (lk_a (lx_s (fst r))) 2000 = 750 /\ ~ lkx_safe (fst r) /\ ~ lkx_inv (fst r) /\
+   snd (lk_clawback (lx_s (fst r)) [(8640000, 250)] 8640000) = LK_INSUFFICIENT) /\
+  lky_results lk_cv_precompile_sdk [LyCreateValidator LkRouteMsg 251; LyCreateValidator LkRouteAuthz 251] lky_ex_start
+    = [LK_UNVESTED; LK_UNVESTED].
+Proof. exact lky_sdk_server_refuted. Qed.
+Print Assumptions C08_validator_creation_sdk_server_refuted.
+
+(** Non-vacuity: the same account delegates 100, is refused a self-bond of 151 on each route (150 = balance 900 -
+    unvested 750), creates its validator with 150 through the precompile, is refused one more coin, and after the
+    second vesting event is refused 751 and bonds the remaining 750. *)
+Theorem C08_validator_creation_nonvacuous :
+  lky_results lk_cv_code lky_ex_history lky_ex_start
+    = [LK_OK; LK_UNVESTED; LK_UNVESTED; LK_UNVESTED; LK_OK; LK_UNVESTED; LK_OK; LK_UNVESTED; LK_OK] /\
+  lkx_no_grant_after_slash false (map lky_lower lky_ex_history) = true /\
+  lkx_safe (lky_run lky_ex_history lky_ex_start) /\ lkx_inv (lky_run lky_ex_history lky_ex_start) /\
+  lk_bal (lx_s (lky_run lky_ex_history lky_ex_start)) = 0 /\ lk_deleg (lx_s (lky_run lky_ex_history lky_ex_start)) = 1000 /\
+  lk_unvested (lk_a (lx_s (lky_run lky_ex_history lky_ex_start))) 5000 = 0.
+Proof. exact lky_ex_runs. Qed.
+Print Assumptions C08_validator_creation_nonvacuous.
